@@ -1,3 +1,4 @@
+import PGT.Proofs.FromDiags
 import PGT.Proofs.FromFlat
 import PGT.Proofs.FromTotal
 import PGT.Proofs.ToTotal
@@ -116,5 +117,81 @@ theorem C06_to_total_example_runs :
      | .ok r => r.diags == [.writeMissing "M.S", .writeMissing "M.L.A"]
      | _ => false) = true := by
   decide
+
+-- ------------------------------------------------------------------------------------------------------
+-- the diagnostics of CopyFrom at every depth (proofs: `Proofs/FromDiags.lean`, no hypothesis on the IR, the Terraform value
+-- or the prior state): the diagnostics and the hook log are an append-only writer log; what a call appends is EXACTLY the
+-- census `fromDiagsFields` (in order); `SiteAt` = a malformed site (missing attribute, wrong Go type, wrong / nil element)
+-- reached through known non-null objects, list elements and map values – each one has its diagnostic in the result; the
+-- executable census used on the implementation (`Spec.c06Fields`) is sound and complete w.r.t. the model (`VFOKs`: a list
+-- field carries no map-value record of a different element type – true of every IR `Build.lean` constructs).
+
+/-- **writer law, all fields of a message**: prepending `d` / `h` to the initial diagnostics / hook log prepends them to
+the result's and changes nothing else – same struct, same ok / panic / stuck status with the same message -/
+theorem C06_from_writer (ov : List (String × String)) : ∀ (fs : List Field) (attrs : Option (List (String × TfVal)))
+    (st : FromSt) (d : List Diag) (h : List HookCall),
+    copyFromFields ov fs attrs (shiftF d h st) = (copyFromFields ov fs attrs st).mapO (shiftF d h) := by
+  intros; apply PGT.copyFromFields_writer <;> assumption
+
+/-- **APPEND-ONLY, all fields of a message**: the result's diagnostics / hook log are the initial ones followed by what
+the run appended, and what is appended (and the struct) does not depend on the initial diagnostics / hook log -/
+theorem C06_from_append_only (ov : List (String × String)) (fs : List Field) (attrs : Option (List (String × TfVal)))
+    (st st' : FromSt) (h : copyFromFields ov fs attrs st = .ok st') :
+    ∃ ds hs, st'.diags = st.diags ++ ds ∧ st'.hooks = st.hooks ++ hs ∧
+      ∀ d k, copyFromFields ov fs attrs { obj := st.obj, diags := d, hooks := k } =
+        .ok { obj := st'.obj, diags := d ++ ds, hooks := k ++ hs } := by
+  intros; apply PGT.copyFromFields_append <;> assumption
+
+/-- **`Copy<T>FromTerraform` reports exactly the census**: the source is an object and the diagnostics returned are
+`fromDiagsFields` of its attributes -/
+theorem C06_from_diags_exact (ov : List (String × String)) (m : Msg) (tf : TfVal) (obj : GoVal) (r : FromResult)
+    (h : copyFrom ov m tf obj = .ok r) :
+    ∃ u n as tys, tf = .obj u n as tys ∧ r.diags = fromDiagsFields ov m.fields (as.getD []) := by
+  intros; apply PGT.copyFrom_diags <;> assumption
+
+/-- **SITE ⇒ DIAGNOSTIC, ANY DEPTH**: whenever the field blocks of a message run to completion, the diagnostic of every
+malformed site – at this level or at any nesting depth – is among the resulting diagnostics -/
+theorem C06_site_diag (ov : List (String × String)) (fs : List Field) (attrs : Option (List (String × TfVal)))
+    (st st' : FromSt) (d : Diag) (hs : SiteAt ov fs (attrs.getD []) d) (h : copyFromFields ov fs attrs st = .ok st') :
+    d ∈ st'.diags := by
+  intros; apply PGT.siteAt_diag <;> assumption
+
+/-- **SITE ⇒ DIAGNOSTIC, top level, missing attribute** (every kind, custom included) -/
+theorem C06_missing_at_top (ov : List (String × String)) (fs : List Field) (attrs : Option (List (String × TfVal)))
+    (st st' : FromSt) (f : Field) (hf : f ∈ fs) (hp : f.info.isPlaceholder = false)
+    (hl : (attrs.getD []).lookup f.info.nameSnake = none) (h : copyFromFields ov fs attrs st = .ok st') :
+    .readMissing f.info.path ∈ st'.diags := by
+  intros; apply PGT.missing_diag <;> assumption
+
+/-- **C06, CopyFrom side, for the whole converter**: for every IR, every Terraform value and every prior struct,
+`Copy<T>FromTerraform` never panics, and when it returns, the diagnostics are exactly the census of the source's
+attributes – in particular the diagnostic of every malformed site at any depth is reported, and each site is
+reported although other sites before it were (conversion of the rest continues). -/
+theorem C06_from_sites (ov : List (String × String)) (m : Msg) (tf : TfVal) (prior : List (String × GoVal)) :
+    (∀ w, copyFrom ov m tf (.struct prior) ≠ .panic w) ∧
+    ∀ r, copyFrom ov m tf (.struct prior) = .ok r →
+      ∃ u n as tys, tf = .obj u n as tys ∧ r.diags = fromDiagsFields ov m.fields (as.getD []) ∧
+        ∀ d, SiteAt ov m.fields (as.getD []) d → d ∈ r.diags := by
+  intros; apply PGT.copyFrom_sites <;> assumption
+
+/-- **soundness and completeness of the executable census w.r.t. the model**: every successful run of
+`Copy<T>FromTerraform` passes the check `Spec.c06FromCheck` the driver evaluates on the real generated code – the
+diagnostics contain the top-level census, and their (kind, path) keys are exactly `Spec.c06Fields` at every depth -/
+theorem C06_from_check_holds (ov : List (String × String)) (m : Msg) (tf : TfVal) (obj : GoVal) (r : FromResult)
+    (hvf : VFOKs m.fields) (h : copyFrom ov m tf obj = .ok r) : Spec.c06FromCheck m tf false r.diags = true := by
+  intros; apply PGT.copyFrom_c06FromCheck <;> assumption
+
+/-- soundness of the executable census, element-wise: every (kind, path) the census `Spec.c06Fields` lists is the key
+of a diagnostic the run reports -/
+theorem C06_census_sound (ov : List (String × String)) (fs : List Field) (attrs : Option (List (String × TfVal)))
+    (st st' : FromSt) (hvf : VFOKs fs) (h : copyFromFields ov fs attrs st = .ok st') (k : String × String)
+    (hk : k ∈ Spec.c06Fields fs (attrs.getD [])) : ∃ d ∈ st'.diags, Spec.diagKey d = some k := by
+  intros; apply PGT.c06Fields_sound <;> assumption
+
+/-- … and conversely every read diagnostic the run appends has its key in the census -/
+theorem C06_census_complete (ov : List (String × String)) (fs : List Field) (attrs : Option (List (String × TfVal)))
+    (st st' : FromSt) (hvf : VFOKs fs) (h : copyFromFields ov fs attrs st = .ok st') :
+    st'.diags.filterMap Spec.diagKey = st.diags.filterMap Spec.diagKey ++ Spec.c06Fields fs (attrs.getD []) := by
+  intros; apply PGT.c06Fields_complete <;> assumption
 
 end PGT.Props.C06
